@@ -30,6 +30,8 @@ fn compare(t: &mut Two, ctx: &str, cells: &[u16]) -> Result<(), (String, String)
     if t.s.sim.pc != t.n.sim.pc { return Err(("state-differs:pc".into(), format!("{ctx}: PC strict x{:04X} vs non-strict x{:04X}", t.s.sim.pc, t.n.sim.pc))); }
     if t.s.sim.psr().get() != t.n.sim.psr().get() { return Err(("state-differs:psr".into(), format!("{ctx}: PSR strict x{:04X} vs x{:04X}", t.s.sim.psr().get(), t.n.sim.psr().get()))); }
     let (a, b) = (t.s.saved_sp(), t.n.saved_sp()); if a != b { return Err(("state-differs:saved-sp".into(), format!("{ctx}: saved SP strict x{a:04X} vs x{b:04X}"))); }
+    // raw I/O-page cells as well: both machines receive identical host probes, so any difference comes from strict mode itself
+    for c in 0xFE00..=0xFFFFu16 { let (a, b) = (t.s.sim.mem[c], t.n.sim.mem[c]); if a != b { return Err(("state-differs:io-page-cell".into(), format!("{ctx}: mem[x{c:04X}] strict {a:?} vs non-strict {b:?}"))); } }
     for c in cells { if *c < 0xFE00 { let (a, b) = (t.s.sim.mem[*c], t.n.sim.mem[*c]); if a != b { return Err(("state-differs:memory".into(), format!("{ctx}: mem[x{c:04X}] strict {a:?} vs non-strict {b:?}"))); } } }
     let (ka, kb): (Vec<u8>, Vec<u8>) = (t.s.kb.get_buffer().read().unwrap().iter().copied().collect(), t.n.kb.get_buffer().read().unwrap().iter().copied().collect());
     if ka != kb { return Err(("device-effect:keyboard".into(), format!("{ctx}: keyboard queue strict {ka:x?} vs non-strict {kb:x?}"))); }
@@ -44,7 +46,9 @@ fn compare(t: &mut Two, ctx: &str, cells: &[u16]) -> Result<(), (String, String)
 
 /// Steps both up to `steps`; returns (accepted steps, strict rejections)
 fn run_pair(m: &Machine, steps: usize, full_init: bool, what: &str) -> Result<(u64, u64), (String, String)> {
-    let mut t = build_two(m, full_init);
+    run_pair_built(build_two(m, full_init), steps, full_init, what)
+}
+fn run_pair_built(mut t: Two, steps: usize, full_init: bool, what: &str) -> Result<(u64, u64), (String, String)> {
     let mut accepted = 0u64;
     for k in 0..steps {
         let pc = t.n.sim.pc;
@@ -95,8 +99,42 @@ fn targeted(i: u64) -> Option<(Machine, String)> {
     Some((m, format!("{name} aimed at x{t:04X} flags {flags}")))
 }
 
+/// Programs loaded with `load_obj_file` (so that "allocated" .blkw regions exist): one access instruction aimed at every address class
+/// relative to the loaded blocks, with initialized / uninitialized source data.
+fn loaded(i: u64) -> Option<(Machine, lc3_ensemble::asm::ObjectFile, String)> {
+    use lc3_ensemble::asm::assemble;
+    use lc3_ensemble::parse::parse_ast;
+    const TARGETS: [(u16, &str); 10] = [(0x1000, "below the first block"), (0x2FFF, "just below the first block"), (0x3000, "first word of a block"), (0x3010, "inside .blkw"), (0x3013, "last word of the first block"),
+        (0x3014, "one past the first block"), (0x4000, "between blocks"), (0x5000, "uninitialized .blkw of the second block"), (0x5003, "initialized word of the second block"), (0xFDFF, "top of user memory")];
+    let (ti, form, srcinit, flags) = (i % 10, i / 10 % 6, i / 60 % 2, i / 120);
+    if flags >= 4 { return None; }
+    let (t, tname) = TARGETS[ti as usize];
+    let src = ".orig x3000\nNOP\nNOP\nNOP\nHALT\nPTR .fill 0\nD .fill 5\n.blkw 9\nS .stringz \"abc\"\n.end\n.orig x5000\n.blkw 3\n.fill 7\n.end";
+    let obj = assemble(parse_ast(src).ok()?).ok()?;
+    let mut m = Machine::user();
+    m.real_traps = flags & 1 == 1; m.ignore_priv = flags & 2 == 2;
+    m.regs = [0, t, 0, 0, 0, 0, 0xFD00, 0];
+    let name = match form { 0 => "LDR R0,R1,#0", 1 => "STR R2,R1,#0", 2 => "LDI R0,PTR", 3 => "STI R2,PTR", 4 => "LDR R0,R1,#0 ; STR R0,R1,#1", _ => "LEA R3,D ; LDR R0,R3,#0 ; STR R0,R1,#0" };
+    Some((m, obj, format!("{name} aimed at x{t:04X} ({tname}) source {} flags {flags} [case {i} form {form} srcinit {srcinit}]", if srcinit == 1 { "initialized" } else { "uninitialized" })))
+}
+fn run_loaded(i: u64, full_init: bool) -> Result<(u64, u64), (String, String)> {
+    let Some((m, obj, what)) = loaded(i) else { return Ok((0, 0)) };
+    let (ti, form, srcinit) = (i % 10, i / 10 % 6, i / 60 % 2);
+    let _ = ti;
+    let mut t = build_two(&m, false);
+    for p in [&mut t.s, &mut t.n] {
+        p.sim.load_obj_file(&obj).map_err(|e| ("machinery".to_string(), format!("{e:?}")))?;
+        let code: &[u16] = match form { 0 => &[0x6040], 1 => &[0x7440], 2 => &[0xA003], 3 => &[0xB403], 4 => &[0x6040, 0x7041], _ => &[0xE604, 0x60C0, 0x7040] };
+        for (k, w) in code.iter().enumerate() { p.sim.mem[0x3000 + k as u16].set(*w); }
+        p.sim.mem[0x3004].set(p.sim.reg_file[reg(1)].get()); // PTR -> target
+        if srcinit == 1 { p.sim.reg_file[reg(2)].set(0x0042); }
+        if full_init { for a in 0..=0xFFFFu16 { let v = p.sim.mem[a].get(); p.sim.mem[a].set(v); } for r in 0..8 { let v = p.sim.reg_file[reg(r)].get(); p.sim.reg_file[reg(r)].set(v); } }
+    }
+    run_pair_built(t, 5, full_init, &what)
+}
+
 pub fn run(ctx: &Ctx) -> Report {
-    let mut rep = Report::new("pairs of real simulators (strict / non-strict) built from one machine description with Known fill, stepped together: (1) every word x the single-step contexts of C08 (2 steps); (2) all programs of <=2 (thorough 3) instructions over the 40-word alphabet x 4 flag sets (<=120 steps); (3) targeted: JMP/JSRR/RET/LDR+STR/stack-relative/RTI aimed at OS memory, x2FFF, KBSR, KBDR (with queued input), DSR, DDR, a custom device port, PSR, MCR, user code and uninitialized user memory x 4 flag sets; each family also on fully initialized machines (all 64K words and 8 registers marked initialized). Oracle: strict-accepted step => identical registers (with init flags), PC, PSR, saved SP, touched memory, device buffers, counts; strict-only failure => a Strict* error; initialized machine => no Strict* error. non-trivial = pairs in which strict mode rejected a step");
+    let mut rep = Report::new("pairs of real simulators (strict / non-strict) built from one machine description with Known fill, stepped together: (1) every word x the single-step contexts of C08 (2 steps); (2) all programs of <=2 (thorough 3) instructions over the 40-word alphabet x 4 flag sets (<=120 steps); (3) targeted: JMP/JSRR/RET/LDR+STR/stack-relative/RTI aimed at OS memory, x2FFF, KBSR, KBDR (with queued input), DSR, DDR, a custom device port, PSR, MCR, user code and uninitialized user memory x 4 flag sets; (4) object files loaded with load_obj_file (two blocks with .blkw regions): LDR/STR/LDI/STI and load-then-store sequences aimed at 10 address classes relative to the loaded blocks (below, first/last word, one past, inside .blkw, between blocks, second block, top of user memory) x initialized/uninitialized source x 4 flag sets; each family also on fully initialized machines (all 64K words and 8 registers marked initialized). Oracle: strict-accepted step => identical registers (with init flags), PC, PSR, saved SP, touched memory, the raw I/O-page cells, device buffers, counts; strict-only failure => a Strict* error; initialized machine => no Strict* error. non-trivial = pairs in which strict mode rejected a step");
     let nctx = context_count(ctx.thorough()).min(ctx.pick(12, 60));
     let wstride = ctx.pick(3u64, 1u64);
     let r = sweep(ctx, nctx * (65536 / wstride + 1) * 2, 512, |k, acc| {
@@ -138,9 +176,20 @@ pub fn run(ctx: &Ctx) -> Report {
         }
     });
     rep.absorb(r);
+    let r = sweep(ctx, 480 * 2, 4, |k, acc| {
+        let (i, full) = (k / 2, k % 2 == 1);
+        if loaded(i).is_none() { return; }
+        acc.evals += 1; acc.count("loaded_object_pairs", 1);
+        match run_loaded(i, full) {
+            Ok((a, rj)) => { acc.transitions += 2 * a; if rj > 0 { acc.nontrivial += 1; acc.count("strict_rejections", 1); acc.count("strict_rejections_loaded", 1); } }
+            Err((sig, d)) => acc.violation(sig, format!("l:{i}:{}", full as u8), d),
+        }
+    });
+    rep.absorb(r);
+    rep.require(rep.acc.get("strict_rejections_loaded") > 10, "strict mode rejected accesses outside allocated regions of a loaded object file");
     rep.bound("contexts", Json::i(nctx)); rep.bound("word_stride", Json::i(wstride)); rep.bound("program_length", Json::i(maxlen as u64));
     rep.require(rep.acc.get("strict_rejections") > 1000, "strict mode rejected steps in many pairs");
-    rep.assume("strict mode is judged only relative to non-strict mode; I/O-page mirror cells are not compared");
+    rep.assume("strict mode is judged only relative to non-strict mode");
     rep
 }
 pub fn replay(case: &str) -> Option<String> {
@@ -150,6 +199,7 @@ pub fn replay(case: &str) -> Option<String> {
         "w" => { let mut m = context(n(1)?); let w = n(2)? as u16; if m.pc < 0xFE00 { m.pokes.push((m.pc, w)); } else { m.regs[0] = w; } run_pair(&m, 2, n(3)? == 1, &format!("sweep context {}", n(1)?)) }
         "p" => { let (m, words) = program_machine(n(1)? as usize, n(2)?, n(3)?); run_pair(&m, 120, n(4)? == 1, &format!("program {words:x?} flags {}", n(3)?)) }
         "t" => { let (m, what) = targeted(n(1)?)?; run_pair(&m, 6, n(2)? == 1, &what) }
+        "l" => run_loaded(n(1)?, n(2)? == 1),
         _ => return None,
     };
     r.err().map(|(s, d)| format!("[{s}] {d}"))
